@@ -914,6 +914,32 @@ pub fn directed() -> Vec<Request> {
             out.push(Request { mode: Mode::Attr, attr: "Add, AddAssign".into(), item: format!("impl<{id}> Add<{id}> for X<{id}> {{ type Output = {id}; }}") });
         }
     }
+    // helper VALUE x TYPE of the field that carries it: every literal-like value on every dictionary
+    // type, every value / key expression on every primitive-like type (a type-driven special case
+    // of a value - "an integer default on a float field" - needs both at once)
+    {
+        let literal_values = [
+            "1", "0", "-1", "1_000", "0x10", "0o17", "0b101", "1u8", "1i64", "1.5", "1.", "1e3", "-1.5e-3", "1f32", "0x1f_u8",
+            "\"s\"", "\"\"", "'c'", "b'x'", "b\"x\"", "r\"raw\"", "c\"x\"", "true", "false", "340282366920938463463374607431768211455", "_",
+        ];
+        let prim_types = ["f64", "f32", "bool", "char", "String", "&'a str", "u8", "i128", "usize", "[u8; 3]", "()", "Option<u8>", "str", "Box<str>", "T"];
+        for v in literal_values {
+            for ty in crate::gen::TYPES {
+                out.push(Request { mode: Mode::Attr, attr: "Default, Clone".into(), item: format!("struct X<'a, T, U, const N: usize> {{ #[default({v})] a: {ty}, b: U }}") });
+            }
+            for ty in prim_types {
+                out.push(Request { mode: Mode::Derive, attr: String::new(), item: format!("#[derive_ex(Default)] enum X<'a, T> {{ A, #[default] B(#[default({v})] {ty}, #[default({v}, bound(T))] {ty}) }}") });
+            }
+        }
+        for ty in prim_types {
+            for e in VALUE_EXPRS {
+                out.push(Request { mode: Mode::Attr, attr: "Default".into(), item: format!("struct X<'a, T>(#[default({e})] {ty});") });
+            }
+            for e in KEY_EXPRS {
+                out.push(Request { mode: Mode::Attr, attr: "Ord, PartialOrd, Eq, PartialEq, Hash".into(), item: format!("struct X<'a, T>(#[ord(key = {e})] {ty}, #[hash(by = {e})] {ty});") });
+            }
+        }
+    }
     // normalise to the printed token form and drop what is not a valid request
     let mut res = Vec::new();
     let mut seen = std::collections::BTreeSet::new();
